@@ -91,13 +91,17 @@ Print Assumptions c14_any_inner_failure.
    descriptions, whatever the worlds of its pools, a failing worker in ANY phase means the
    stage does not complete and the completing effect (taxonomy_tree dataset / move into
    place / data-indices-indptr / return of the result) does not happen; a completed stage
-   means every worker of every phase exited with code 0 *)
-Theorem c14_no_complete_output : forall s specs,
+   means every worker of every phase exited with code 0.  `clean_ok` = whether the removal
+   of the scratch directory in the `finally` block succeeds while sibling workers still write
+   into it: when it does not, the caller sees the clean-up's exception instead of the
+   inspector's RuntimeError (snd r = ECleanup) — an exception all the same (snd r <> ENone) *)
+Theorem c14_no_complete_output : forall s specs clean_ok,
   In s all_stages -> length specs = length (sd_phases s) ->
   Forall (fun p => (1 <= spec_bound p)%nat) specs ->
-  let r := run_stage_desc s (map pool_result specs) in
-  ((exists p, In p specs /\ spec_fails p) -> snd r = false /\ ~ In SComplete (fst r)) /\
-  (snd r = true -> forall p, In p specs -> spec_all_zero p).
+  let r := run_stage_desc_c s (map pool_result specs) clean_ok in
+  ((exists p, In p specs /\ spec_fails p) ->
+     snd (fst r) = false /\ ~ In SComplete (fst (fst r)) /\ snd r <> ENone) /\
+  (snd (fst r) = true -> snd r = ENone /\ forall p, In p specs -> spec_all_zero p).
 Proof. exact no_complete_output. Qed.
 Print Assumptions c14_no_complete_output.
 
@@ -128,5 +132,6 @@ Example c14_example_stage :
   run_stage_desc stats_stage [pool_result (false, W, 2, 2)%nat] = ([SScratch; SCleanScratch], false) /\
   run_stage_desc pmask_stage [pool_result (true, W, 2, 2)%nat] = ([SScratch; SSkeleton; SCleanScratch], false) /\
   run_stage_desc markers_stage [POk; pool_result (false, W, 2, 2)%nat; POk] = ([SScratch; SScratch], false) /\
-  run_stage_desc stats_stage [POk] = ([SScratch; SPayload; SCleanScratch; SComplete], true).
+  run_stage_desc stats_stage [POk] = ([SScratch; SPayload; SCleanScratch; SComplete], true) /\
+  run_stage_desc_c transpose_stage [pool_result (false, W, 2, 2)%nat] false = ([SScratch], false, ECleanup).
 Proof. vm_compute. repeat split; reflexivity. Qed.
